@@ -84,6 +84,16 @@ CLAIMED = {
 }
 
 NOT_APPLICABLE = {
+    "C08": "quantifies over every program the generator can emit; the behaviour lives in quote! templates and serde_derive output, not in functions a contract can be attached to (DESIGN.md section 7)",
+    "C09": "'the emitted Rust compiles' is rustc's type checker applied to an unbounded family of outputs; panic sites are inside syn::parse_str (DESIGN.md section 7)",
+    "C10": "relates the format!/String layout printer to the peg-generated parser; Verus has no str/format! reasoning and Kani exhausts memory on format! (DESIGN.md section 7)",
+    "C11": "the accepted language is defined by the peg::parser! macro expansion (Verus cannot ingest it; Kani did not finish on 4 symbolic bytes); the from_token duplicate-detection slice was not built",
+    "C12": "totality of the macro-generated recursive-descent parser over arbitrary Unicode and nesting; no function-level contract within the verifier's reach (DESIGN.md section 7)",
+    "C13": "quantifies over thread schedules and timing of 2..64 OS connections; the installed Verus has no thread model and Kani has no threads (DESIGN.md section 7)",
+    "C16": "processes, file descriptors, environment of a forked child and transport equivalence are outside any function contract; the scheme-rejection / activation-gating slice was not built",
+    "C18": "relation between two process executions (stdio of `varlink bridge`, epoll close-watching, child processes); no contract can express process exit status",
+    "C19": "the certification step slice (13 step methods with macro-expanded checks over generated types) was not built; nothing is claimed",
+    "C20": "stdout/stderr/exit status of the CLI through clap, println!, colored_json; the URL split cannot be isolated from connection side effects without rewriting it",
 }
 
 
